@@ -86,7 +86,7 @@ CHECKS = {
              text="All strings of the bounded space are executed on the real decoder (function level and through the real command loop), so within the bound the for-all-inputs statement is decided, not sampled; the recogniser has 5 states and looks at one byte at a time, so length 10-12 over the 4 relevant byte classes exercises every state/byte transition in every context.",
              note=SEQ_NOTE + "; " + VK_NOTE),
  "C06": dict(engine="SEQ", category="exploration", design_ref="4/C06",
-             technique="bounded-exhaustive enumeration of every message over {CR,LF,'.',a} (length<=10 quick, <=12 thorough), every read chunking and every read-error offset, through the real blast(); oracle = wire invariants + RFC 5321 reference receiver round trip; every message up to length 5/7 (+ hand-written ones) as a queue file through the real qmail-remote process under the virtual kernel to a scripted SMTP server",
+             technique="bounded-exhaustive enumeration of every message over {CR,LF,'.',a} (length<=10 quick, <=12 thorough), every read chunking and every read-error offset, through the real blast(); oracle = wire invariants + RFC 5321 reference receiver round trip; every message up to length 5/7 (+ hand-written ones) as a queue file through the real qmail-remote process under the virtual kernel to a scripted SMTP server; the real qmail-rspawn with two real qmail-remote children delivering one message at the same time to per-connection scripted servers under every interleaving within the preemption bound (stateless exploration, payload of every acknowledged DATA phase decoded against the queue file)",
              text="Every string of the bounded space is executed on the real encoder, so within the bound this is a complete decision of the for-all-strings property; the bound covers every placement of CR, LF and '.' relative to line starts (the encoder's state depends on at most the previous two bytes).",
              note=SEQ_NOTE),
 }
@@ -106,7 +106,7 @@ m = {
  "notes": "bin/check <ID> --tier quick|thorough; exit 0 held / 1 violation / 2 harness error. known-findings.txt lists fixed defects and recorded findings.",
 }
 LIB = {"C01","C03","C04","C05","C06","C07","C08","C09","C10","C11","C12","C13","C14","C15","C17","C18","C19","C20"}
-LIB_NOTE = "; plus the library conformance harness (seq/c00_lib.c): the shared primitives the property rests on (substdio under every read/write schedule, byte/str/case functions, number scanning, constmap, cdb, control-file parsing, seek) exhaustively over small domains against trivial references"
+LIB_NOTE = "; plus the library conformance harness (seq/c00_lib.c): the shared primitives the property rests on (substdio under every read/write schedule, byte/str/case functions, number scanning, constmap, cdb, control-file parsing, seek, and for C20 the growth routine of the dynamic arrays with the k-th allocation failing) exhaustively over small domains against trivial references"
 for p in props:
     i = p["id"]
     if i in CHECKS:
